@@ -199,6 +199,26 @@ fn report_session(out: &mut Out, prop: &str, name: &str, script: &Script, res: &
     if script.checked_build {
         out.add("sessions_on_checked_build", 1);
     }
+    // the order in which the three threads passed the schedule points, per go (what was
+    // actually interleaved, as opposed to what was requested)
+    let mut cur: Vec<&str> = vec![];
+    for e in res.hook_events.iter().chain(std::iter::once(&(u64::MAX, "BEFORE_RAISE".to_string(), String::new()))) {
+        if e.1 == "BEFORE_RAISE" && !cur.is_empty() {
+            out.add(&format!("order:{}", cur.join(">")), 1);
+            cur.clear();
+        }
+        cur.push(match e.1.as_str() {
+            "BEFORE_RAISE" => "raise?",
+            "FLAG_RAISED" => "RAISED",
+            "AFTER_TIMER_SPAWN" => "timer-spawned",
+            "SEARCH_START" => "search-start",
+            "TIMER_WAKE" => "timer-wake",
+            "TIMER_FIRED" => "TIMER-FIRED",
+            "FLAG_CLEARED" => "CLEARED",
+            "AFTER_BESTMOVE" => "bestmove-printed",
+            other => other,
+        });
+    }
     if res.exit_code == Some(0) {
         out.add("clean_exits", 1);
     }
@@ -306,9 +326,13 @@ pub fn run_c14(tier: &str, seed: u64) -> i32 {
             }
         }
     }
-    chk.distinct_nontrivial = agg.c("sessions");
     chk.put("schedule_point_delay_pairs_exercised", json!(pair_list));
-    chk.rule = "session = one run of the real binary under a script; fault = a delay injected at one of the named schedule points (AFTER_TIMER_SPAWN, BEFORE_RAISE, SEARCH_START, AFTER_BESTMOVE, TIMER_WAKE) x {0,2,20,150} ms. Directed scenarios for each ordering named in the property (timer before flag raise with movetime 0/1/5, stop at thread start, command right after bestmove incl. ucinewgame and show, isready storms while PVs are printed, late timer, go infinite on tiny positions on release and debug-assertions builds) plus random scripts over {uci,isready,ucinewgame,position,go depth/movetime/clock/infinite,stop,wait,show,quit} in which the driver reacts to bestmove by sending the next position+go at once. The recorded history is replayed against a sequential session model (see DESIGN C14). Sessions are distinct by script; each is non-trivial (contains at least one accepted go).".into();
+    let mut orders: Vec<(String, u64)> = agg.ctr.iter().filter(|(k, _)| k.starts_with("order:")).map(|(k, v)| (k[6..].to_string(), *v)).collect();
+    orders.sort_by(|a, b| b.1.cmp(&a.1));
+    chk.put("distinct_event_orders_per_go", json!(orders.len()));
+    chk.put("event_orders_observed", json!(orders.iter().take(40).map(|(k, v)| json!({"order": k, "times": v})).collect::<Vec<_>>()));
+    chk.distinct_nontrivial = orders.len() as u64;
+    chk.rule = "session = one run of the real binary under a script; fault = a delay injected at one of the named schedule points (AFTER_TIMER_SPAWN, BEFORE_RAISE, SEARCH_START, AFTER_BESTMOVE, TIMER_WAKE) x {0,2,20,150} ms. Directed scenarios for each ordering named in the property (timer before flag raise with movetime 0/1/5, stop at thread start, command right after bestmove incl. ucinewgame and show, isready storms while PVs are printed, late timer, go infinite on tiny positions on release and debug-assertions builds) plus random scripts over {uci,isready,ucinewgame,position,go depth/movetime/clock/infinite,stop,wait,show,quit} in which the driver reacts to bestmove by sending the next position+go at once. The recorded history is replayed against a sequential session model (see DESIGN C14). evaluations = sessions; distinct_nontrivial = number of DISTINCT orders in which the command loop, the search thread and the timer thread were observed to pass the hook points within one go (read from the engine's own event log; listed under event_orders_observed).".into();
     chk.assumptions = vec![
         "interleavings explored are those reachable by stretching the five named points plus OS noise under 16-way load".into(),
         "absence of output is a violation only when reproduced in an isolated re-run; lost stops in the directed timer scenarios are decided on hook event order".into(),
@@ -321,6 +345,7 @@ pub fn run_c14(tier: &str, seed: u64) -> i32 {
     }
     chk.need("timer order checks", agg.c("timer_order_checks"), 10);
     chk.need("clean exits", agg.c("clean_exits"), 50);
+    chk.need("distinct event orders per go", orders.len() as u64, 6);
     finalize(chk, &agg)
 }
 
